@@ -136,7 +136,7 @@ Lemma bp_wf_mod d c : bp_wf d = true -> In c (bd_mods d) ->
   (forall x, In x (bm_insts c) -> dev_names_ok x = true /\ forall cn, In cn (bi_conns x) -> bexpr_nodup (snd cn) = true).
 Proof.
   unfold bp_wf. intros H Hin. rewrite forallb_forall in H. specialize (H c Hin). unfold bp_wf_module in H.
-  apply andb_prop in H. destruct H as [H H3]. apply andb_prop in H. destruct H as [H1 H2]. split; [apply nodup_names_NoDup; exact H1|].
+  apply andb_prop in H. destruct H as [H _]. apply andb_prop in H. destruct H as [H H3]. apply andb_prop in H. destruct H as [H1 H2]. split; [apply nodup_names_NoDup; exact H1|].
   split.
   - rewrite forallb_forall in H2. exact H2.
   - rewrite forallb_forall in H3. intros x Hx. specialize (H3 x Hx). apply andb_prop in H3. destruct H3 as [A B]. split; [exact A|].
